@@ -35,8 +35,11 @@ def obligations(tier):
         Ob("C15.scene_id", "R", "scene ids: MMMMM ooooo ffff - yymmdd == accepted language (no trailing garbage), groups positional",
            [D + "scene_id_re", D + "decode_scene_id"], bounds="all strings (unbounded length); calendar validity of the date is dateutil's contract", call="props.c15:ob_scene"),
         Ob("C15.dates", "E", "scene-id date: accepted iff yymmdd is a real calendar day, decoded to that day; impossible dates raise ValueError (never re-read as another date)",
-           [D + "decode_scene_id", D + "parse_date"], bounds="every mmdd 0000..9999 x 11 boundary years (quick) / all 10^6 six-digit texts (thorough): concrete enumeration of the finite domain through the real decoder",
+           [D + "decode_scene_id", D + "parse_date", "ceos_alos2.summary:transform_scene_spec"], bounds="(also as shown under /summary/scene_specification) every mmdd 0000..9999 x 11 boundary years (quick) / all 10^6 six-digit texts (thorough): concrete enumeration of the finite domain through the real decoder",
            call="props.c15:ob_dates", wall_timeout=1800),
+        Ob("C15.e2e", "E", "witness replay: ScanSAR / multi-polarisation products opened with create_cache=True and then with the defaults (through the index): one group per "
+           "(polarisation, scan), named by them, unique, each with its own pixels", ["ceos_alos2.xarray:open_alos2", "ceos_alos2.sar_image:open_image"],
+           bounds="concrete replays (not the deciding step): 2 pols x 3 scans (level 1.1) and 2 pols (level 1.5), each through a cache cycle", call="props.c15:ob_e2e", wall_timeout=600),
         Ob("C15.filename", "R", "file names: composed language == accepted language; 4 structural variants pairwise disjoint; groups positional per variant",
            [D + "fname_re", D + "decode_filename"], bounds="all strings (unbounded length)", call="props.c15:ob_fname"),
         Ob("C15.groupname", "X", "image group name = polarisation [+ _scan<n>], injective in (polarisation, scan number)",
@@ -393,6 +396,7 @@ def ob_dates(tier):
     import datetime
 
     from ceos_alos2 import decoders as D
+    from ceos_alos2 import summary as SM
 
     years = range(100) if tier == "thorough" else (0, 14, 16, 19, 20, 24, 32, 49, 50, 68, 99)
     bad, n = [], 0
@@ -413,10 +417,33 @@ def ob_dates(tier):
                     bad.append({"date text": text, "decoded": str(got), "calendar": str(want)})
                     if len(bad) > 8:
                         break
+                if want is not None and yy <= 68:
+                    # the same scene id where it surfaces in the tree: /summary/scene_specification shows that calendar day
+                    try:
+                        attrs = SM.transform_scene_spec({"SceneID": "ALOS2123456789-" + text}).attrs
+                        shown = attrs.get("date", (attrs.get("SceneID") or {}).get("date") if isinstance(attrs.get("SceneID"), dict) else None)
+                    except Exception as e:  # noqa: BLE001
+                        shown = f"{type(e).__name__}"
+                    n += 1
+                    if shown != want.date().isoformat():
+                        bad.append({"date text": text, "summary shows": str(shown), "calendar": want.date().isoformat()})
     res = {"verdict": "violated" if bad else "discharged", "queries": n, "replays": n, "exhaustive": tier == "thorough"}
     if bad:
         res["cex"] = bad[:5]
         res["finding_key"] = "C15.dates:" + ",".join(b["date text"] for b in bad[:5])
+    return res
+
+
+def ob_e2e(tier):
+    from vlib import api
+
+    runs = [api.assembly("1.1", pols=("HH", "HV"), scans=("F1", "F2", "F3"), use_cache_cycle=True, pid="WWDR1.1__D"),
+            api.assembly("1.5", pols=("HH", "HV"), use_cache_cycle=True)]
+    bad = [r for r in runs if r.get("reproduced")]
+    res = {"verdict": "violated" if bad else "discharged", "queries": len(runs), "replays": len(runs)}
+    if bad:
+        res["cex"] = bad[:2]
+        res["finding_key"] = "C15.e2e:" + str(bad[0].get("detail"))[:160]
     return res
 
 
